@@ -163,6 +163,19 @@ def term_rule(prog, R, rid, floor=4):
                 r.broke("%s: store to %s[%s] outside a loop" % (f.name, ftxt, idx))
                 continue
             h, body = lp
+            # dense output: when the loop can skip input elements, the store index must be the output counter, not the input position
+            hbr0 = f.branch(h)
+            if hbr0:
+                for c3, p3 in atoms(hbr0[0], True) + atoms(hbr0[0], False):
+                    op3, l3, r3 = norm_cmp(c3, p3)
+                    if r3 is not None and is_var(strip(l3), idx) and op3 in ("<", ">=", "<=", ">"):
+                        skips = any((f.blocks[x].term or {}).get("cls") == "ContinueStmt" for x in body)
+                        if skips:
+                            r.viol("fn=%s %s filled densely" % (f.name, ftxt), f.name, f.loc(el), "elements are stored at the input position '%s' although the loop skips some inputs: the skipped positions stay NULL, so the list ends at the first gap for every consumer (and for the free function, which leaks what lies behind it)" % idx)
+                            idx = None
+                        break
+            if idx is None:
+                continue
             # index discipline inside the loop: only ++, at most once per iteration, after the store
             iw = _writes(f, idx, body)
             if not iw or any(w[2]["e"]["op"] != "++" for w in iw):
